@@ -83,11 +83,28 @@ BBox(cs) == IF Len(cs) = 0 THEN <<>>
             ELSE << SetMin({cs[i][1] : i \in DOMAIN cs}), SetMin({cs[i][2] : i \in DOMAIN cs}),
                     SetMax({cs[i][1] : i \in DOMAIN cs}), SetMax({cs[i][2] : i \in DOMAIN cs}) >>
 
+\* X02 (extension): HasDimensions.  Dim is PointSet!Dim; the boundary dimension follows OGC-SFA: points have no boundary,
+\* an open curve has its two end points, a closed one none, multi-curves follow the mod-2 rule, areas have curves.
+IsEmptyG(g) == Len(Coords(g)) = 0
+OddEndpoints(ls) == \E i \in DOMAIN ls : Len(ls[i]) >= 2 /\ ls[i][1] # ls[i][Len(ls[i])] /\
+    \E e \in {ls[i][1], ls[i][Len(ls[i])]} :
+        ((Cardinality({j \in DOMAIN ls : Len(ls[j]) >= 2 /\ ls[j][1] # ls[j][Len(ls[j])] /\ ls[j][1] = e})
+          + Cardinality({j \in DOMAIN ls : Len(ls[j]) >= 2 /\ ls[j][1] # ls[j][Len(ls[j])] /\ ls[j][Len(ls[j])] = e})) % 2) = 1
+RECURSIVE BDim(_)
+BDim(g) ==
+    CASE g.t \in {"Point", "MultiPoint"} -> -1
+      [] g.t = "Line" -> IF g.a = g.b THEN -1 ELSE 0
+      [] g.t = "LineString" -> IF Dim(g) <= 0 \/ g.cs[1] = g.cs[Len(g.cs)] THEN -1 ELSE 0
+      [] g.t = "MultiLineString" -> IF OddEndpoints(g.ls) THEN 0 ELSE -1
+      [] g.t \in {"Polygon", "MultiPolygon", "Rect", "Triangle"} -> IF Dim(g) <= 0 THEN -1 ELSE Dim(g) - 1
+      [] g.t = "GeometryCollection" -> IF Len(g.gs) = 0 THEN -1 ELSE SetMax({BDim(g.gs[i]) : i \in DOMAIN g.gs})
+
 Sq(x, y, s) == << <<x, y>>, <<x + s, y>>, <<x + s, y + s>>, <<x, y + s>>, <<x, y>> >>
 Pool == <<
     Pt(<<1, 2>>), MPt(<< <<0, 0>>, <<2, 1>>, <<0, 0>> >>), MPt(<<>>),
     Ln(<<0, 3>>, <<2, 1>>), LS(<< <<0, 0>>, <<3, 0>>, <<3, 2>> >>), LS(<<>>), LS(<< <<5, 5>> >>),
     MLS(<< << <<0, 0>>, <<1, 1>> >>, <<>>, << <<2, 2>>, <<3, 1>>, <<4, 4>> >> >>), MLS(<<>>),
+    MLS(<< << <<0, 0>>, <<3, 0>>, <<3, 3>> >>, << <<3, 3>>, <<0, 3>>, <<0, 0>> >> >>),      \* two open members closing a loop
     Poly(Sq(0, 0, 6), <<>>), Poly(Sq(0, 0, 6), << Sq(1, 1, 1), Sq(3, 3, 2), Sq(1, 4, 1) >>), Poly(<<>>, <<>>),
     MPoly(<< [ext |-> Sq(0, 0, 2), holes |-> <<>>], [ext |-> <<>>, holes |-> <<>>],
              [ext |-> Sq(4, 4, 3), holes |-> << Sq(5, 5, 1) >>] >>), MPoly(<<>>),
@@ -109,7 +126,8 @@ Case(g, f) ==
     [op |-> "traversal", g |-> g, coords |-> cs, count |-> Len(cs), ext |-> ec,
      has_lines |-> HasLines(g), lines |-> IF HasLines(g) THEN Lines(g) ELSE <<>>,
      bbox |-> BBox(cs), ext_bbox |-> BBox(ec),
-     f |-> f, mapped |-> Map(f, g), mapped_coords |-> MapCs(f, cs)]
+     f |-> f, mapped |-> Map(f, g), mapped_coords |-> MapCs(f, cs),
+     dim |-> Dim(g), bdim |-> BDim(g), empty |-> IsEmptyG(g)]
 Next == /\ ~done /\ done' = TRUE /\ m1' = m1
         /\ m2' \in 0 .. NP /\ m3' \in 0 .. NP /\ (m2' = 0 => m3' = 0)
         /\ fn' \in Fn
